@@ -196,6 +196,9 @@ def catalogue(tier="quick", seed=0):
     inner = struct([("h", I16), ("d", array(F32, (None,))), ("e", array(U8, (None, 2)))], "N")
     cat.append(struct([("i", inner), ("j", inner), ("z", I64)]))
     cat.append(struct([("aa", array(array(I8, (None,)), (None,))), ("t", dyn_struct())]))
+    # four dynamic fields, two pairs of the same type (offset words for the 2nd..4th; equal-size redistribution)
+    cat.append(struct([("p", array(I8, (None,))), ("k", I32), ("q", array(I8, (None,))), ("s", STR), ("u", STR)], "Q"))
+    cat.append(array(struct([("p", array(I16, (None,))), ("q", array(I16, (None,))), ("r", array(I16, (None,)))], "Q"), (None,)))
     # references
     t1 = dyn_struct()
     p1 = sta_struct()
@@ -212,8 +215,8 @@ def catalogue(tier="quick", seed=0):
     out = [(describe(a), a) for a in cat]
     if tier == "thorough":
         rng = random.Random(seed)
-        for _ in range(120):
-            a = random_type(rng, 3)
+        for k in range(360):
+            a = random_type(rng, 3 if k % 3 else 4)
             if a[0] in ("scalar", "string", "ref"):
                 a = struct([("f", a), ("g", random_type(rng, 2))])
             out.append((describe(a), a))
